@@ -64,6 +64,8 @@ def handle(req):
         return trace_module(shipped(req['name']), req.get('optimize', False))
     if req['cmd'] == 'deser':
         return do_deser(req)
+    if req['cmd'] == 'memo':
+        return do_memo(req)
     if req['cmd'] == 'render':
         return do_render(req)
     if req['cmd'] == 'prettybin':
@@ -198,3 +200,22 @@ def do_prettybin(req):
     except lemmas.EXC as e:
         out['error'] = type(e).__name__ + ': ' + str(e)[:150]
     return out
+
+
+def do_memo(req):
+    """pattern(p) through MemoizingInterpreter(S) over a tracing serializer whose memory was pre-populated by real calls"""
+    from proof_generation.optimizing_interpreters import MemoizingInterpreter
+    B = Bridge()
+    it, sinks = tracing.new_serializer(B, 'proof', [])
+    for e in req['mem']:            # prelude: build the entry, save it, pop it
+        q = B.to_py(e['p'])
+        it.pattern(q)
+        it.save('pre', it.stack[-1])
+        it.pop(it.stack[-1])
+    npre = len(it._events)
+    out = 'ok'
+    try:
+        MemoizingInterpreter(it, {B.to_py(s) for s in req['S']}).pattern(B.to_py(req['p']))
+    except (AssertionError, ValueError, IndexError, KeyError, TypeError, NotImplementedError, AttributeError) as e:
+        out = 'raise:' + type(e).__name__
+    return {'out': out, 'events': it._events, 'npre': npre, 'methods': [e['m'] for e in it._events[npre:]]}
